@@ -83,7 +83,8 @@ def _prenormalise(modname, tree):
     k = known_symbols().get(modname)
     if k is None:
         return tree
-    from .inline import inline_unknown
+    from .inline import inline_unknown, generators_to_lists
+    tree = generators_to_lists(tree, set(k['functions']))
     tree, _ = inline_unknown(tree, k['functions'], k['methods'])
     # functions of the pinned tree: spellings the pinned version does not use are rewritten (sa/normal.py)
     from .normal import normalise_function
